@@ -19,15 +19,18 @@
 (*          sees the call's own input messages and answers "s<w>:atag"     *)
 (* Apply(S, e) consumes the per-call projection of the observations        *)
 (* (events are attributed to a call by a key carried in the context):      *)
-(*   case   id, agent "react"|"host", tag, n, d, w, modifier               *)
+(*   case   id, agent "react"|"host", tag, user, n, d, w, modifier         *)
 (*   call   mode "generate"|"stream"                                       *)
 (*   mcall  who, input <<msg>>, tags (tags occurring in the input)         *)
 (*   tool   name, args, out, tags                                          *)
 (*   answer msg, tags | error text | orphan (an event without call key)    *)
+(*   input  first, beyond: the caller's input slice after its calls (first *)
+(*          element; non-empty cells of its backing array beyond its len)  *)
 (*   endcall, end                                                          *)
 (* What is demanded: every call produces exactly the observations it       *)
 (* would produce alone (histories contain only its own messages, in the    *)
-(* C18 order; its own answer), no call fails, Generate and Stream agree.   *)
+(* C18 order; its own answer), no call fails, Generate and Stream agree,   *)
+(* and the framework does not write into the caller-owned input slice.     *)
 (***************************************************************************)
 EXTENDS Naturals, Sequences, FiniteSets, TLC, Json
 
@@ -39,7 +42,7 @@ Render(m) == [role |-> m.role, content |-> m.content, calls |-> [i \in 1..Len(m.
 RenderAll(ms) == [i \in 1..Len(ms) |-> Render(ms[i])]
 
 \* ---- react conversations
-UserR(c) == Msg("user", "q|" \o c.tag \o "|" \o ToString(c.n) \o "|" \o ToString(c.d))
+UserR(c) == Msg("user", c.user)     \* "q|tag|n|d", or one message shared by all callers of a round (the tag is then carried by the context)
 CallR(c, j) == [id |-> "c" \o c.tag \o "." \o ToString(j), name |-> (IF c.d = j THEN "trd" ELSE "t"), args |-> c.tag \o "." \o ToString(j)]
 AsstR(c, j) == [role |-> "assistant", content |-> "", calls |-> <<CallR(c, j)>>, tcid |-> ""]
 OutR(c, j) == CallR(c, j).name \o "(" \o CallR(c, j).args \o ")"
@@ -55,7 +58,7 @@ ReactExp(c, j, hist) ==
   ELSE <<mc, tl>> \o ReactExp(c, j + 1, hist \o <<AsstR(c, j), ToolR(c, j)>>)
 
 \* ---- host conversations
-UserH(c) == Msg("user", "q|" \o c.tag \o "|" \o ToString(c.w))
+UserH(c) == Msg("user", c.user)     \* "q|tag|w"
 HostExp(c) ==
   LET hc == [k |-> "mcall", who |-> "host", input |-> <<Msg("system", "hp"), UserH(c)>>] IN
   CASE c.w = 0 -> <<hc, [k |-> "answer", msg |-> FinalR(c)]>>
@@ -66,7 +69,7 @@ HostExp(c) ==
 
 Expected(c) == IF c.agent = "host" THEN HostExp(c) ELSE ReactExp(c, 1, <<UserR(c)>>)
 
-NoCase == [id |-> "", agent |-> "react", tag |-> "", n |-> 0, d |-> 0, w |-> 0, modifier |-> FALSE]
+NoCase == [id |-> "", agent |-> "react", tag |-> "", user |-> "", n |-> 0, d |-> 0, w |-> 0, modifier |-> FALSE]
 Idle == [id |-> "", open |-> FALSE, bad |-> "", c |-> NoCase, incall |-> FALSE, p |-> 1, exp |-> <<>>, answers |-> <<>>, ncalls |-> 0, mode |-> ""]
 Bad(S, why) == [S EXCEPT !.bad = why]
 Foreign(S, e) == \E t \in Range(e.tags) : t # S.c.tag
@@ -98,6 +101,13 @@ EndCallRule(S, e) ==
   ELSE IF Len(S.answers) >= 2 /\ S.answers[Len(S.answers)] # S.answers[1] THEN Bad([S EXCEPT !.incall = FALSE], "generate-and-stream-answers-differ")
   ELSE [S EXCEPT !.incall = FALSE]
 
+\* the caller's input slice after its calls: its first element and the cells of its backing array beyond its length
+InputRule(S, e) ==
+  IF S.incall THEN Bad(S, "input-checked-inside-a-call")
+  ELSE IF Len(e.beyond) > 0 THEN Bad(S, "framework-wrote-into-the-callers-input-slice")
+  ELSE IF Render(e.first) # (IF S.c.agent = "host" THEN UserH(S.c) ELSE UserR(S.c)) THEN Bad(S, "framework-changed-the-callers-input-message")
+  ELSE S
+
 Apply(S, e) ==
   IF e.ev = "case" THEN [Idle EXCEPT !.id = e.id, !.open = TRUE, !.c = e]
   ELSE IF S.bad # "" THEN (IF e.ev = "end" THEN [S EXCEPT !.open = FALSE] ELSE S)
@@ -109,6 +119,7 @@ Apply(S, e) ==
          [] e.ev = "answer" -> AnswerRule(S, e)
          [] e.ev = "error" -> Bad(S, "call-failed")
          [] e.ev = "orphan" -> Bad(S, "event-without-call-context")
+         [] e.ev = "input" -> InputRule(S, e)
          [] e.ev = "endcall" -> EndCallRule(S, e)
          [] e.ev = "end" -> IF S.incall THEN Bad([S EXCEPT !.open = FALSE], "case-ended-inside-a-call")
                             ELSE IF S.ncalls = 0 THEN Bad([S EXCEPT !.open = FALSE], "case-without-a-call")
